@@ -134,6 +134,18 @@ Proof.
   - destruct (body_poll c b src) as [[o b'] src'].
     unfold Encoder.frames_of in *. cbn [flat_map]. f_equal. apply IH.
 Qed.
+
+(* the codec never polls its message source again once the source has answered None (the
+   explicit-source run of Model/Encoder.v, with the ghost counter s_after_end, is the run all
+   theorems here speak about, and the ghost stays 0) *)
+Theorem source_never_polled_after_end (c : Encoder.cfg enc) r src extra :
+  map fst (fst (Encoder.run_body_src msg enc ser compress c r src extra)) =
+    Encoder.run_body msg enc ser compress c r src extra /\
+  Encoder.s_after_end (snd (Encoder.run_body_src msg enc ser compress c r src extra)) = 0.
+Proof.
+  destruct (Encoder.enc_source_never_polled_after_end msg enc ser compress c r src extra) as [E Z].
+  split; [|exact Z]. rewrite E. apply Encoder.run_body_es_fst.
+Qed.
 End EosProofs.
 
 (* ------------------------------------------------------------------------------------------
